@@ -381,8 +381,14 @@ def parse_mir(text):
     i = 0
     while i < len(lines):
         ln = lines[i]
+        m1 = re.match(r'^const ([A-Za-z_0-9:<>, ]+): ([^=]+) = const (.*);$', ln)
+        if m1:
+            # named constant with a literal value
+            f = Func(name=m1.group(1).strip(), params=[], ret=m1.group(2).strip(), locals={0: m1.group(2).strip()}, blocks={}, is_const=True)
+            f.blocks[0] = ([parse_statement('_0 = const %s;' % m1.group(3))], parse_terminator('return;'))
+            funcs.append(f); i += 1; continue
         m = re.match(r'^(fn|const|static|promoted\[\d+\] in) (.*) \{$', ln)
-        if m and (ln.startswith('fn ') or '::promoted[' in ln):
+        if m and (ln.startswith('fn ') or '::promoted[' in ln or (ln.startswith('const ') and re.match(r'^([A-Za-z_0-9:<>, ]+): (.*) =$', m.group(2)))):
             is_const = not ln.startswith('fn ')
             header = m.group(2)
             if not is_const:
@@ -398,7 +404,7 @@ def parse_mir(text):
                     mm = re.match(r'^_(\d+): (.*)$', part)
                     params.append((int(mm.group(1)), mm.group(2)))
             else:
-                mm = re.match(r'^(.*::promoted\[\d+\]): (.*) =$', header)
+                mm = re.match(r'^(.*::promoted\[\d+\]): (.*) =$', header) or re.match(r'^([A-Za-z_0-9:<>, ]+): (.*) =$', header)
                 name, ret, params = mm.group(1), mm.group(2), []
             f = Func(name=name.strip(), params=params, ret=ret.strip(), locals={}, blocks={}, is_const=is_const)
             for (n, t) in params: f.locals[n] = t
